@@ -1,6 +1,6 @@
 (* C05 — Distribution contracts of round_robin, weighted_round_robin, least_connections.
    Statements only; proofs in Proofs/StrategyProofs.v. *)
-From Helios Require Import Base.Prelude Base.Wrap Model.Hash Model.Strategy Proofs.StrategyProofs.
+From Helios Require Import Base.Prelude Base.Wrap Model.Hash Model.Strategy Proofs.StrategyProofs Proofs.WrrBoundProofs.
 
 (* round robin with every backend eligible: the pick after counter value c returns the backend at
    index (c+1) mod n and advances the counter by one ... *)
@@ -56,9 +56,46 @@ Proof.
 Qed.
 Print Assumptions C05_wrr_lag_identity.
 
-(* Full statement for arbitrary histories (bound 2*W_T/W_E on the deviation): NOT proved in general
-   (see DESIGN.md, research risk); it is monitored on every implementation trace.  Removal starts a
-   fresh cycle (s_remove), so the exactness theorems apply again after every removal: *)
+(* After ANY history of additions (fresh object, weight >= 1), removals, health changes, in-flight updates and picks, with any
+   eligible set at every pick: in the stable stretch that follows, after k picks (every k) every eligible backend i has received
+   n_i requests with | n_i * W_E - k * w_i | <= 2 * (n - 1) * W_T, i.e. it stays within 2 * (n - 1) * W_T / W_E of its
+   proportional share k * w_i / W_E - a bound that does not grow with the number of requests.  (n members, W_T their total
+   weight, W_E the eligible weight.)  By the subset-sum invariant of Proofs/WrrBoundProofs.v. *)
+Theorem C05_wrr_bounded_after_any_history :
+  forall ops, h_valid (s_init WRR) ops ->
+    let p := spool (fold_left h_step ops (s_init WRR)) in
+    forall k b, In b p -> bflag b = true ->
+      Z.abs (count_in (bid b) (fst (wrun k p)) * wrr_total p - Z.of_nat k * bweight b) <= 2 * ((zlen p - 1) * Wt p).
+Proof. exact wrr_deviation_bounded. Qed.
+Print Assumptions C05_wrr_bounded_after_any_history.
+
+(* ... because the running weights themselves stay bounded in every reachable state *)
+Theorem C05_wrr_running_weights_bounded :
+  forall ops, h_valid (s_init WRR) ops ->
+    let p := spool (fold_left h_step ops (s_init WRR)) in
+    forall b, In b p -> Z.abs (bcw b) <= (zlen p - 1) * Wt p.
+Proof.
+  intros ops Hv p b Hb. destruct (history_inv ops (s_init WRR) HInv_init Hv) as (_ & Hnd & _ & Hi).
+  apply cw_bounded; assumption.
+Qed.
+Print Assumptions C05_wrr_running_weights_bounded.
+
+(* The constant the property names, 2 * W_T / W_E, is NOT a bound: the statement with that constant is refuted by a history of
+   health changes over five backends of weights 8,1,1,1,1 (known finding wrr-flap-beyond-two-ratio: replayed on the
+   implementation by the strategy suite's corpus).  What is proved is the constant 2 * (n - 1) * W_T / W_E above. *)
+Theorem C05_wrr_two_ratio_refuted :
+  exists ops k b,
+    h_valid (s_init WRR) ops /\
+    let p := spool (fold_left h_step ops (s_init WRR)) in
+    In b p /\ bflag b = true /\
+    Z.abs (count_in (bid b) (fst (wrun k p)) * wrr_total p - Z.of_nat k * bweight b) > 2 * Wt p.
+Proof.
+  exists flap_history, 7%nat, (mkB 2 2 1 true 0 0 16). split; [exact flap_history_valid|].
+  vm_compute. split; [right; left; reflexivity|]. split; reflexivity.
+Qed.
+Print Assumptions C05_wrr_two_ratio_refuted.
+
+(* Removal starts a fresh cycle (s_remove), so the exactness theorems apply again after every removal: *)
 Theorem C05_wrr_fresh_after_removal :
   forall s id, mem_id id (spool s) = true -> fresh (spool (s_remove s id)).
 Proof.
